@@ -1,6 +1,7 @@
 import DracoModel.DecM
 import DracoModel.Geometry
 import DracoModel.Adapters
+import DracoModel.SymbolLegacy
 /-
   Sequential attribute decoding and the sequential point-cloud / mesh decoders:
     compression/point_cloud/point_cloud_decoder.cc        (header, version gate, metadata flag)
@@ -47,7 +48,9 @@ def symbolAllocs (numValues : Nat) (bs : Bytes) : List (String × Nat) :=
       | b :: rest' => if 1 ≤ b ∧ b ≤ 18 then ransCreateAllocs (ransPrecisionBits b) rest' else []
     else []
 
-/-- `DecodeSymbols` with its allocation events logged (the values come from the pure adapter) -/
+/-- `DecodeSymbols` with its allocation events logged (the values come from the pure adapter).
+    Not used by the decoders below (their `lift (Leaf.decodeSymbols …)` steps are referred to by the
+    round-trip proofs); the events are bounded separately, see `DracoProps.C18.symbol_tables_bounded`. -/
 def decodeSymbolsM (numValues numComponents : Nat) : DecM (List Nat) := fun s =>
   lift (Leaf.decodeSymbols numValues numComponents)
     { s with allocs := (symbolAllocs numValues s.rest).reverse ++ s.allocs }
@@ -145,6 +148,52 @@ inductive IntTransform where
   | wrap (t : Leaf.WrapT)
   | octaCanon (c : OctaT)
 
+/-- `SequentialIntegerAttributeDecoder::DecodeIntegerValues` after the prediction scheme has been
+    created, for every bitstream version (symbol decoding of streams < 2.0 reads raw counts; the
+    non-canonicalized octahedron transform of streams < 2.2).  `sel`: 0 no scheme, 1 delta + wrap,
+    2 delta + legacy octahedron, 3 delta + canonicalized octahedron. -/
+def integerValuesTail (sel numEntries nc : Nat) : DecM (List Int) := do
+  let ver ← version
+  require (nc > 0)
+  let numValues := numEntries * nc
+  alloc "integer_decoder.portable_attribute" (4 * numValues)
+  require (numEntries > 0)
+  -- the model keeps the values in lists: it does not follow streams that declare more than 2^24 values
+  if numValues > 2 ^ 24 then failWith (.unsupported "declared number of values beyond the model's limit") else
+  let compressed ← rdU8
+  let raw : List Nat ←
+    if compressed > 0 then lift (decodeSymbolsV (ver < bsVersion 2 0) numValues nc)
+    else do
+      let numBytes ← rdU8
+      if numBytes == 4 then
+        let b ← bytes (4 * numValues)
+        pure (leGroups 4 b)
+      else
+        require (numBytes * numValues ≤ 4 * numValues)
+        let rem ← remaining
+        require (numBytes * numValues ≤ rem)
+        if numBytes == 0 then pure (List.replicate numValues 0) else
+        let b ← bytes (numBytes * numValues)
+        pure (leGroups numBytes b)
+  let vals : List Int :=
+    if sel == 2 || sel == 3 then raw.map (toSigned 32) else raw.map ofSymbol
+  let octaDelta := fun (dec : Int × Int → Int × Int → Int × Int) =>
+    deltaDecode (fun p cr =>
+      match p, cr with
+      | [p0, p1], [c0, c1] => let (a, b) := dec (p0, p1) (c0, c1); [a, b]
+      | _, _ => cr) nc vals
+  match sel with
+  | 1 =>
+    let t ← lift Wrap.decodeTransformData
+    pure (deltaDecode (fun p c => List.zipWith (Leaf.wrapDec t) p c) nc vals)
+  | 2 =>
+    let c ← lift (Octa.legacyDecodeTransformData (ver < bsVersion 2 2))
+    pure (octaDelta (Octa.legacyDecOrig c))
+  | 3 =>
+    let c ← lift Octa.decodeTransformData
+    pure (octaDelta (Leaf.octaDec c))
+  | _ => pure vals
+
 /-- what `SequentialIntegerAttributeDecoder::DecodeValues/DecodeIntegerValues` leave in the
     portable attribute: `numEntries * nc` int32 values.
     `kind`: 1 integer, 2 quantization, 3 normals (decides which transforms exist);
@@ -163,7 +212,7 @@ def decodeIntegerValues (kind : Nat) (numEntries nc : Nat) : DecM (List Int) := 
       if tt == Generated.PREDICTION_TRANSFORM_NORMAL_OCTAHEDRON_CANONICALIZED then transformSel := 3
       else if tt == Generated.PREDICTION_TRANSFORM_NORMAL_OCTAHEDRON then transformSel := 2
     else if tt == Generated.PREDICTION_TRANSFORM_WRAP then transformSel := 1
-  if transformSel == 2 then failWith (.unsupported "legacy octahedron transform") else
+  if transformSel == 2 then integerValuesTail 2 numEntries nc else
   require (nc > 0)
   let numValues := numEntries * nc
   alloc "integer_decoder.portable_attribute" (4 * numValues)
@@ -171,7 +220,7 @@ def decodeIntegerValues (kind : Nat) (numEntries nc : Nat) : DecM (List Int) := 
   require (numEntries > 0)
   let compressed ← rdU8
   let raw : List Nat ←
-    if compressed > 0 then decodeSymbolsM numValues nc
+    if compressed > 0 then lift (Leaf.decodeSymbols numValues nc)
     else do
       let numBytes ← rdU8
       if numBytes == 4 then
@@ -295,6 +344,109 @@ def decodeSequentialAttributes (opts : DecOpts) (numPoints : Nat) : DecM (List A
             pure (d.toAttribute numPoints (octaAll bits.toNat s.portable []).flatten)
           | _ => fail) states
 
+/-- method / transform bytes of `SequentialIntegerAttributeDecoder::DecodeValues` and the scheme
+    `CreateIntPredictionScheme` yields without mesh data (0 none, 1 delta+wrap, 2 delta+legacy
+    octahedron, 3 delta+canonicalized octahedron) -/
+def decodeSchemeSelection (kind : Nat) : DecM Nat := do
+  let method ← rdI8
+  require (decide (Generated.PREDICTION_NONE ≤ method) && decide (method < Generated.NUM_PREDICTION_SCHEMES))
+  if method == Generated.PREDICTION_NONE then pure 0 else
+  let tt ← rdI8
+  require (decide (Generated.PREDICTION_TRANSFORM_NONE ≤ tt) && decide (tt < 4))
+  if kind == 3 then
+    if tt == Generated.PREDICTION_TRANSFORM_NORMAL_OCTAHEDRON_CANONICALIZED then pure 3
+    else if tt == Generated.PREDICTION_TRANSFORM_NORMAL_OCTAHEDRON then pure 2
+    else pure 0
+  else if tt == Generated.PREDICTION_TRANSFORM_WRAP then pure 1
+  else pure 0
+
+/-- `AttributeQuantizationTransform::DecodeParameters` / `AttributeOctahedronTransform::DecodeParameters` -/
+def decodeTransformParams (decoderType numComponents : Nat) : DecM TransformData := do
+  if decoderType == 2 then
+    let mins ← replicateM' numComponents rdU32
+    let range ← rdU32
+    let bits ← rdU8
+    require (1 ≤ bits && bits ≤ 30)
+    pure (.quantization bits mins range)
+  else if decoderType == 3 then
+    let bits ← rdU8
+    pure (.octahedron bits)
+  else pure .none
+
+/-- the public form of a decoded attribute (`TransformAttributesToOriginalFormat` or the copy of the
+    portable attribute when the transform is skipped); `mp` = point → value map -/
+def finishSeqAttribute (opts : DecOpts) (s : SeqAttState) (numValues : Nat) (mp : Option (List Nat)) : DecM Attribute := do
+  let d := s.desc
+  if s.decoderType == 0 then
+    pure { d.toAttribute numValues s.rawValues with map := mp }
+  else if opts.skip.contains d.attType then
+    let nc := if s.decoderType == 3 then 2 else d.numComponents
+    pure { attType := d.attType, dataType := Generated.DT_INT32.toNat, numComponents := nc,
+           normalized := false, uniqueId := d.uniqueId, numValues := numValues, map := mp,
+           values := (s.portable.map (intToLE 4)).flatten, transform := s.transform }
+  else
+    match s.decoderType with
+    | 1 =>
+      let len := dataTypeLength d.dataType
+      pure { d.toAttribute numValues (s.portable.map (intToLE len)).flatten with map := mp }
+    | 2 =>
+      match s.transform with
+      | .quantization bits mins range =>
+        pure { d.toAttribute numValues (dequantAll range bits.toNat mins s.portable mins []).flatten with map := mp }
+      | _ => fail
+    | _ =>
+      match s.transform with
+      | .octahedron bits =>
+        pure { d.toAttribute numValues (octaAll bits.toNat s.portable []).flatten with map := mp }
+      | _ => fail
+
+/-- `StoreValues` of the integer / quantization / normal decoder can fail: unsupported data type,
+    octahedral quantization bits outside 2..30 -/
+def storeValuesCheck (s : SeqAttState) : DecM Unit := do
+  if s.decoderType == 1 then require (s.desc.dataType ≥ 1 && s.desc.dataType ≤ 6)
+  else if s.decoderType == 3 then
+    match s.transform with
+    | .octahedron bits => require (2 ≤ bits && bits ≤ 30)
+    | _ => fail
+
+/-- `SequentialAttributeDecodersController` for bitstreams < 2.0 over a linear sequence: the
+    transform parameters precede the integer values of each attribute and the values are stored in
+    their final form while they are decoded (`DecodeValues` calls `StoreValues`);
+    `DecodeDataNeededByPortableTransform` reads nothing and `TransformAttributeToOriginalFormat`
+    does nothing (the skip option still replaces the attribute by its portable form). -/
+def decodeSequentialAttributesLegacy (opts : DecOpts) (numPoints : Nat) : DecM (List Attribute) := do
+  let descs ← decodeAttDescs
+  alloc "controller.sequential_decoders" (8 * descs.length)
+  let states ← mapM' (fun (d : AttDesc) => do
+      let dt ← rdU8
+      require (dt ≤ 3)
+      if dt == 2 then require (d.dataType == Generated.DT_FLOAT32.toNat)
+      if dt == 3 then require (d.numComponents == 3 && d.dataType == Generated.DT_FLOAT32.toNat)
+      pure ({ desc := d, decoderType := dt } : SeqAttState)) descs
+  require (numPoints < 2^31)
+  alloc "linear_sequencer.point_ids" (4 * numPoints)
+  let states ← mapM' (fun (s : SeqAttState) => do
+      let stride := dataTypeLength s.desc.dataType * s.desc.numComponents
+      alloc "attribute.Reset" (numPoints * stride)
+      if s.decoderType == 0 then
+        let b ← bytes (numPoints * stride)
+        pure { s with rawValues := b }
+      else
+        let nc := if s.decoderType == 3 then 2 else s.desc.numComponents
+        let sel ← decodeSchemeSelection s.decoderType
+        let tr ← decodeTransformParams s.decoderType s.desc.numComponents
+        let vals ← integerValuesTail sel numPoints nc
+        let s' := { s with portable := vals, transform := tr }
+        storeValuesCheck s'
+        pure s') states
+  mapM' (fun (s : SeqAttState) => finishSeqAttribute opts s numPoints none) states
+
+/-- the controller for the bitstream version of the stream -/
+def decodeSequentialAttributesV (opts : DecOpts) (numPoints : Nat) : DecM (List Attribute) := do
+  let ver ← version
+  if ver < bsVersion 2 0 then decodeSequentialAttributesLegacy opts numPoints
+  else decodeSequentialAttributes opts numPoints
+
 /-- `PointCloudDecoder::DecodePointAttributes` for decoders whose attribute decoders are all
     sequential controllers over the same linear sequence -/
 def decodePointAttributesSeq (opts : DecOpts) (numPoints : Nat) : DecM (List Attribute) := do
@@ -302,7 +454,7 @@ def decodePointAttributesSeq (opts : DecOpts) (numPoints : Nat) : DecM (List Att
   -- all DecodeAttributesDecoderData first, then all DecodeAttributes: with more than one
   -- decoder the two phases interleave differently from a simple loop
   if numDecoders == 0 then pure []
-  else if numDecoders == 1 then decodeSequentialAttributes opts numPoints
+  else if numDecoders == 1 then decodeSequentialAttributesV opts numPoints
   else failWith (.unsupported "more than one sequential attributes decoder")
 
 /-- `MeshSequentialDecoder::DecodeAndDecompressIndices` on the decoded symbols -/
@@ -338,7 +490,7 @@ def decodeSeqConnectivity : DecM (Nat × List (Nat × Nat × Nat)) := do
   let idx ←
     if method == 0 then do
       alloc "mesh_sequential.indices_buffer" (12 * numFaces)
-      let syms ← decodeSymbolsM (numFaces * 3) 1
+      let syms ← lift (Leaf.decodeSymbols (numFaces * 3) 1)
       ofOption (decompressIndices syms)
     else if numPoints < 256 then replicateM' (3 * numFaces) rdU8
     else if numPoints < 2^16 then replicateM' (3 * numFaces) rdU16
@@ -352,8 +504,11 @@ structure DecodeResult where
   geometry : Geometry
   metadata : Option GeometryMetadata
 
-/-- `Decoder::DecodeBufferToGeometry` for the sequential methods (encoder_method 0) -/
-def decodeGeometry (opts : DecOpts) : DecM DecodeResult := do
+/-- `Decoder::DecodeBufferToGeometry`; the sequential methods (encoder_method 0) are decoded here,
+    `eb` decodes the body of an Edgebreaker mesh stream (encoder_method 1 on meshes), `kd` is
+    `PointCloudKdTreeDecoder`'s `DecodeGeometryData` + `DecodePointAttributes` (encoder_method 1 on point
+    clouds); the complete decoder `decodeGeometry` is assembled in DracoModel/Decoder.lean -/
+def decodeStreamWith (eb kd : DecOpts → DecM Geometry) (opts : DecOpts) : DecM DecodeResult := do
   let h ← decodeHeader
   -- Decoder::GetEncodedGeometryType
   require (h.encoderType < 2)
@@ -367,7 +522,8 @@ def decodeGeometry (opts : DecOpts) : DecM DecodeResult := do
   setVersion (bsVersion h.major h.minor)
   let ver := bsVersion h.major h.minor
   let md ← if ver ≥ bsVersion 1 3 && h.flags / 32768 % 2 == 1 then (do let g ← lift Leaf.decodeGeometryMetadata; pure (some g)) else pure none
-  if h.encoderMethod != 0 then failWith (.unsupported (if isMesh then "edgebreaker" else "kd-tree")) else
+  if h.encoderMethod != 0 && isMesh then (do let g ← eb opts; pure ⟨g, md⟩) else
+  if h.encoderMethod != 0 then (do let g ← kd opts; pure ⟨g, md⟩) else
   if isMesh then
     let (numPoints, faces) ← decodeSeqConnectivity
     let atts ← decodePointAttributesSeq opts numPoints
